@@ -221,6 +221,7 @@ class Executor:
         self.parent = {}              # child oid -> (parent oid, key)
         self.max_block_visits = 0     # 0 = unbounded; otherwise paths revisiting a block more often are cut ("loopbound")
         self.havoc_memo = {}
+        self._alone = {}
         self.havoc_calls = {}         # oid -> (callee, args)
         self.n_checks = 0
         self.solver_s = 0.0
@@ -611,7 +612,17 @@ class Executor:
         if m:
             key = ("static", m.group(2))
             if key not in st.store:
-                st.store[key] = self.fresh_lazy(strip_ref(m.group(2))[0], "static:" + m.group(2))
+                inner = strip_ref(m.group(2))[0]
+                # an immutable static whose (unique) initialiser is in the dump: use its value (e.g. CONFIG_FILE_NAME)
+                cands = [f for n_, l in self.funcs.items() for f in l if f.kind == "const" and f.ret.strip() == inner
+                         and "promoted" not in n_ and "::{" not in n_] if "Atomic" not in inner and "Lazy<" not in inner else []
+                val = None
+                if len(cands) == 1:
+                    try:
+                        val = self.eval_const_fn(st, cands[0])
+                    except Inconclusive:
+                        val = None
+                st.store[key] = val if val is not None else self.fresh_lazy(inner, "static:" + m.group(2))
             return Ref(key, ())
         if "promoted[" in t:
             pm = re.search(r"promoted\[(\d+)\]$", t)
@@ -829,20 +840,61 @@ class Executor:
         return Agg(dest_ty if dest_ty and dest_ty != "?" else p, None, vals, names)
 
     # ------------------------------------------------------------------ feasibility
+    def _vars(self, t, acc):
+        todo = [t]
+        seen = set()
+        while todo:
+            e = todo.pop()
+            i = e.get_id()
+            if i in seen:
+                continue
+            seen.add(i)
+            if z3.is_const(e) and e.decl().kind() == z3.Z3_OP_UNINTERPRETED:
+                acc.add(e.decl().name())
+            else:
+                todo.extend(e.children())
+        return acc
+
+    def _pc_vars(self, st):
+        n, vs = st.aux.get("_pcv", (0, frozenset()))
+        if n != len(st.pc):
+            acc = set(vs) if n <= len(st.pc) else set()
+            for p in st.pc[n if n <= len(st.pc) else 0:]:
+                self._vars(p, acc)
+            vs = frozenset(acc)
+            st.aux["_pcv"] = (len(st.pc), vs)
+        return vs
+
     def feasible(self, st, cond=None):
         if not self.check_feasible:
             return True
+        import time
         if cond is not None:
             c = z3.simplify(cond)
             if z3.is_true(c): return True
             if z3.is_false(c): return False
-        import time
+            # a condition over symbols the path condition never mentions is independent of it: decide it alone
+            cv = self._vars(c, set())
+            if cv and cv.isdisjoint(self._pc_vars(st)):
+                key = c.sexpr() if len(cv) <= 3 else None
+                if key is not None and key in self._alone:
+                    return self._alone[key]
+                t0 = time.time()
+                self.n_checks += 1
+                s2 = z3.Solver()
+                s2.add(c)
+                r = s2.check()
+                self.solver_s += time.time() - t0
+                res = r != z3.unsat
+                if key is not None:
+                    self._alone[key] = res
+                return res
         t0 = time.time()
         self.n_checks += 1
         self.solver.push()
         try:
-            for p in st.pc:
-                self.solver.add(p)
+            if st.pc:
+                self.solver.add(z3.And(*st.pc) if len(st.pc) > 1 else st.pc[0])
             if cond is not None:
                 self.solver.add(cond)
             r = self.solver.check()
@@ -995,8 +1047,7 @@ class Executor:
                 c, tgt = live[0]
                 if c is not None and len(live) > 1:
                     st.pc.append(c)
-                elif c is not None:
-                    st.pc.append(c)
+                # a single feasible arm is implied by the path condition: nothing to record
                 fr.bb, fr.ip = tgt, 0
             elif k == "call":
                 r = self.call(st, fr, s, work)
